@@ -38,7 +38,11 @@ import (
 )
 
 const (
-	MaxPacketLen     = 1024
+	// MaxPacketLen must hold a request with numStoredCookies cookie-sized
+	// extension fields (one cookie and seven placeholders of 128 bytes each,
+	// 1148 bytes in total) and the corresponding response; 1232 bytes still
+	// fit into an IPv6 minimum-MTU packet.
+	MaxPacketLen     = 1232
 	numStoredCookies = 8
 	ntpPacketLen     = 48
 )
